@@ -27,7 +27,7 @@ const (
 // It succeeds if and only if every critical task acknowledged it; failures of non-critical tasks never make
 // it fail; with nothing to command it succeeds at once.
 //verif:entry HarnessTransitionTasks unwind=16 timers=lazy preempt=1 reach=ok,failed,empty stub=github.com/AliceO2Group/Control/common/utils.TimeTrack
-//verif:thorough HarnessTransitionTasks preempt=2
+//verif:thorough HarnessTransitionTasks preempt=1 paths=1000000
 func HarnessTransitionTasks() {
 	env := uid.ID("2oDvieFrVTi")
 	n := vrt.IntRange("tasks", 0, 2+vrt.Tier())
